@@ -72,6 +72,10 @@ func main() {
 		id := uint64(i)
 		spawn(func() { runDirected(bases, d, r.Fork(1000+id), id, res, pool, v) })
 	}
+	spawn(func() { runExhaustive(res, pool, v, r.Fork(4242)) })
+	if far != nil {
+		spawn(func() { runLRU(far, res, v, r.Fork(4343)) })
+	}
 	nRandom := f.Scale(24, 400)
 	for i := 0; i < nRandom; i++ {
 		id := uint64(i)
